@@ -254,7 +254,7 @@ pub fn run(a: &Args, m: &mut Mon) {
             explore_pairs(m, &ends, true, &mut r);
         }
     }
-    let nseq = a.n(300_000, 30_000_000);
+    let nseq = a.n(1_200_000, 100_000_000);
     let maxlen = if a.thorough() { 100_000 } else { 300 };
     for k in 0..nseq {
         let n = match r.below(12) {
@@ -313,7 +313,7 @@ pub fn run(a: &Args, m: &mut Mon) {
             }
         }
     }
-    let nf = a.n(800, 40_000);
+    let nf = a.n(3_000, 60_000);
     for _ in 0..nf {
         let n = r.usize(1, 8);
         let class = r.pick(&[EndsClass::Strict, EndsClass::Dups, EndsClass::UlpWide, EndsClass::MixedZero, EndsClass::IntGrid]);
